@@ -147,6 +147,10 @@ def corpus(tier):
         for a in A1:
             for bb in ("(y)", "(x + y)", "(-1)", "(b)", "((x))", "(r@1)", "(t.at(0))"):
                 yield "print-args", "", 'x = 1; y = 2; b = true; t = tab(1, 5); r = tup(1, 2); %s (%s) %s; print "|"; %s (%s) %s (%s) %s; print "";' % (kw, a, bb, kw, a, bb, a, bb)
+        # the argument is not enclosed as a whole, only its last operand is (the parentheses around a lone name are not kept)
+        for a in ["(x)", "- (x)", "x + (y)", "1 + (x)", "x * (y)", "not (b)", "x ** (y)", "x == (y)", "b and (b)", "2 - - (x)", "t.at(0) + (x)", "ii * (x)", "x + y * (x)"]:
+            for bb in ("(y)", "(x + y)", "(-1)", "((x))", "(t.at(0))"):
+                yield "print-args", "", 'x = 1; y = 2; b = true; t = tab(1, 5); r = tup(1, 2); %s %s %s; print "|"; %s %s %s %s %s; print "";' % (kw, a, bb, kw, a, bb, a, bb)
     # every byte value inside a constant (written raw in the source; NUL, LF, CR and the quote have their own spellings above)
     for b in range(1, 256):
         if b in (0x0a, 0x0d, 0x22, 0x5c):
